@@ -448,6 +448,15 @@ impl Monitors {
                     self.stats.restart_with_pending += 1;
                 }
             }
+            Ev::ClockBack { secs } => {
+                // stored attempt times moved `secs` into the future: they count as written that much later
+                for (_, t) in self.tracks.iter_mut() {
+                    if let Some(w) = t.pending_written_grid.as_mut() {
+                        *w += secs;
+                    }
+                }
+                self.mix(3 + secs);
+            }
             Ev::Tick { secs } => {
                 self.grid_s += secs;
                 self.mix(1000 + secs);
